@@ -375,7 +375,7 @@ def h_truncation(ctx, d):
         left_kept, left_all = SymReal(nu.neg_term(0, l, -h / 2)), SymReal(nu.neg_term(0, -INF, -h / 2))
         pr = float(prob)
         if d == 1:
-            ctx.prove("C13.truncation.keeps_exactly_the_promised_share.1d", AND(EQ(right_kept, pr * right_all), EQ(left_kept, pr * left_all)), info=info, replay=rp)
+            ctx.prove("C13.attempted.truncation.keeps_exactly_the_promised_share.1d", AND(EQ(right_kept, pr * right_all), EQ(left_kept, pr * left_all)), info=info, replay=rp)
         ctx.prove("C13.truncation.every_margin_keeps_at_least_the_promised_share", AND(right_kept >= pr * right_all, left_kept >= pr * left_all), info=dict(info, margin=i), replay=rp)
 
 
@@ -414,11 +414,15 @@ EXPECT = ["C13.truncation.every_margin_keeps_at_least_the_promised_share", "C13.
           "C13.refine.h_halves", "C13.refine.truncations_unchanged"]
 
 
+# stronger than the property ("a target tail probability" is met by keeping at least the share): reported, not claimed
+ATTEMPTED = ["C13.attempted.truncation.keeps_exactly_the_promised_share.1d"]
+
+
 def main(tier):
     bounds = {"constructors": "uniform (|l|, r < 4h), fixed size (<= 5/9 points), geometric and geometric-with-bounds (<= 3/5 points per side), credit (d <= 3, symmetric and asymmetric); h, bounds, thresholds arbitrary reals",
               "refinement": "up to 3+3 points, up to 3 refinements, shared-axis storage in 2-d/3-d",
               "outside": "compute_truncation_helper (Brent root search) and np.geomspace are contract stubs; probability-step axes (unbounded root-search loops with bare except); promised tail / per-step probabilities"}
-    return run_check(PID, tier, harnesses(tier), expect=EXPECT, bounds=bounds,
+    return run_check(PID, tier, harnesses(tier), expect=EXPECT, attempted=ATTEMPTED, bounds=bounds,
                      assumptions=COMMON_ASSUMPTIONS + ["compute_truncation returns any l < -h/2 < h/2 < r (bracket of its root search)", "np.geomspace returns an arbitrary strictly monotone sequence with the given end points"])
 
 
